@@ -74,6 +74,22 @@ def gen_case(rng):
         if r.random() < 0.1:
             parts.append('  <config seed="%d"/>' % r.choice([0, 5, 99]))
             feats.add("config-seed")
+        if r.random() < 0.12:
+            # several random draws in ONE element: the attributes of a <var> (assigned 'in parallel'), of a <g> scope and of a
+            # shape must take their draws in one fixed order
+            nv = r.randint(2, 6)
+            names = r.sample(["va", "vb", "vc", "vd", "ve", "vf", "zz", "a1"], nv)
+            form = r.choice(["var", "g", "shape"])
+            draws = " ".join('%s="{{randint(0, 100000)}}"' % nm for nm in names)
+            shown = " ".join("$" + nm for nm in names)
+            if form == "var":
+                parts.append('  <var %s/>\n  <text xy="0 %d" text="%s"/>' % (draws, i, shown))
+            elif form == "g":
+                parts.append('  <g %s><text xy="0 %d" text="%s"/></g>' % (draws, i, shown))
+            else:
+                parts.append('  <rect xy="{{randint(0, 50)}} {{randint(0, 50)}}" wh="{{randint(1, 9)}} {{randint(1, 9)}}" data-a="{{randint(0, 999)}}" data-b="{{randint(0, 999)}}" text="{{randint(0, 99)}}"/>')
+            feats.add("random")
+            feats.add("random.multi-draw-" + form)
         if r.random() < 0.1:
             parts.append('  <for var="c" data="%s"><rect xy="^|h 1" wh="2" class="d-$c d-grid-{{randint(1,9)}}"/></for>' %
                          ",".join(r.sample(docgen.COLOURS, 3)))
